@@ -19,10 +19,14 @@ META = {
             'views are compared in the kernel); the Go harness and line protocol. Registry values are those of the linux build of the plugins.',
 }
 NS = 'Scalibr.Registry.'
+# set-union clauses: resolving a list of names; auto-enabling required extractors (borrowed by C01 at Scan level)
+ENABLE_MODULE = 'Scalibr.Properties.C19Enable'
+ENABLE_THEOREMS = ['Scalibr.Registry.' + t for t in ['C19_resolves_list_partial', 'C19_resolves_list_error', 'C19_registry_names_determine', 'C19_resolves_list',
+                                                     'C19_enable_once_partial', 'C19_enable_idempotent']]
 THEOREMS = [NS + t for t in [
     'C19_validate_spec', 'C19_filter', 'C19_filter_mem', 'C19_enable_valid_partial', 'C19_filtered_selection_valid_partial', 'C19_keys_nodup', 'C19_required',
     'C19_filtered_valid', 'C19_any_selection_valid', 'C19_names_unique', 'C19_tables_wellformed', 'C19_resolves_keys', 'C19_resolves',
-    'C19_advertised_groups', 'C19_source_agrees', 'C19_required_needed', 'validate_eq_satisfied', 'mem_allCaps']]
+    'C19_advertised_groups', 'C19_source_agrees', 'C19_required_needed', 'validate_eq_satisfied', 'mem_allCaps']] + ENABLE_THEOREMS
 
 
 def unhex(h):
@@ -48,6 +52,33 @@ def _seq(s):
     return [one(x) for x in (s or '').split('|')]
 
 
+def _cnt(s):
+    return {unhex(x.split(':')[0]): int(x.split(':')[1]) for x in (s or '-').split(',') if x not in ('-', '')}
+
+
+def enable_verdict(t, fi, fm):
+    """`enab` cases: the enabled lists after EnableRequiredExtractors and what a real Scan then does, against the specification"""
+    if 'sres' not in fm:
+        return None
+    what = 'explicitly enabled fs=%s standalone=%s, detectors requiring %s' % (unhexl(t[1]), unhexl(t[2]), [unhexl(d) for d in t[3].split('|')])
+    if fi.get('res') != fm['sres']:
+        return '%s: EnableRequiredExtractors gives %s, expected %s' % (what, fi.get('res'), fm['sres'])
+    if fm['sres'] != 'ok':
+        return None
+    if fi.get('en') != fm.get('sen'):
+        f = lambda x: [unhexl(p) for p in (x or '-|-').split('|')]
+        return '%s: enabled extractors after EnableRequiredExtractors are %s; expected the explicit ones followed by each missing required name ONCE, in order of first occurrence: %s' % (what, f(fi.get('en')), f(fm.get('sen')))
+    if fi.get('calls') != fm.get('scalls'):
+        return '%s: Extract calls per extractor %s; every enabled extractor must run exactly once on its one required file: %s' % (what, _cnt(fi.get('calls')), _cnt(fm.get('scalls')))
+    if fi.get('dup') != '0':
+        return '%s: a package occurs more than once in the inventory (packages per extractor %s)' % (what, _cnt(fi.get('pk')))
+    if fi.get('stat') != fm.get('sstat'):
+        return '%s: status entries per plugin %s; expected one each: %s' % (what, _cnt(fi.get('stat')), _cnt(fm.get('sstat')))
+    if fi.get('scan') != 'ok':
+        return '%s: the scan failed' % what
+    return None
+
+
 def caps_str(c):
     try:
         return '{OS:%s Network:%s DirectFS:%s RunningSystem:%s}' % (OSN[int(c[0])], NETN[int(c[1])], c[2] == '1', c[3] == '1')
@@ -65,7 +96,9 @@ def run(ctx):
                        'the registry is the one of the linux build of /repo (platform-specific plugin files select their linux or dummy variant)',
                        'Go map iteration order is unspecified: results of FromNames / FromCapabilities are compared as sets (every key has members with distinct names: C19_tables_wellformed)',
                        'plugin initialisers are deterministic (calling one twice yields the same Name/Requirements)']
-    ctx.rule = ('prer = scan-root shapes {none, one real directory, one virtual FS (Path ""), real+virtual} x 60 capability tuples x (filtered registry, filtered defaults, unfiltered defaults, EVERY plugin alone): '
+    ctx.rule = ('enab = 1..4 inert detectors with RequiredExtractors() lists over 6 real filesystem + 3 standalone extractor names (overlapping, repeated, enabled explicitly, unknown): enabled lists after the real '
+                'EnableRequiredExtractors, and a real Scan over an in-memory tree with one file per extractor: Extract calls (stats.Collector), package multiplicities, status entries; '
+                'names also = overlapping lists (group+member, member+group, same name twice, group+group, all+anything) judged against the union of the single resolutions; prer = scan-root shapes {none, one real directory, one virtual FS (Path ""), real+virtual} x 60 capability tuples x (filtered registry, filtered defaults, unfiltered defaults, EVERY plugin alone): '
                 'real EnableRequiredExtractors + ValidatePluginRequirements on the real plugins and a real scalibr.New().Scan with inert stand-ins carrying each plugin\'s name/requirements: never a requirement-validation failure for a filtered set; '
                 'seq = operation sequences: the registry\'s all/default lists and FromCapabilities results filtered with every ordered pair of 10 capability tuples (and 3-4 in a row), hand-made lists '
                 'with 2-4 random tuples: every result, every EARLIER result re-read after the later calls and the input list afterwards must be what the pure model says; exhaustive in both tiers: val = all 60x60 (requirement, capability) pairs; fromcaps = 3 registries x 60 tuples; names = every registered key; name = every key of every '
@@ -86,8 +119,8 @@ def run(ctx):
                       ['# ' + l, 'names %s k %s' % (kind, key.encode().hex() or '-')])
     # 2. the kernel re-checks every obligation against the regenerated tables
     drv_ok, _ = ctx.lean_build(['drv_c19'])
-    ok, _ = ctx.lean_build(['Scalibr.Properties.C19'])
-    proofs_ok = ctx.audit(['Scalibr.Properties.C19'], THEOREMS)
+    ok, _ = ctx.lean_build(['Scalibr.Properties.C19', ENABLE_MODULE])
+    proofs_ok = ctx.audit(['Scalibr.Properties.C19', ENABLE_MODULE], THEOREMS)
     if ctx.tier == 'thorough' and ok:
         proofs_ok = ctx.leanchecker('Scalibr.Properties.C19') and proofs_ok
     ctx.checker_cmd = 'cd /verif/translator && go build -tags verif -overlay /verif/harness/overlay/overlay.json -o bin/regdump ./cmd/regdump && bin/regdump && ' \
@@ -141,6 +174,15 @@ def run(ctx):
             if fi.get('scan') in ('prefail', 'other'):
                 return 'a real Scan configured from the capability-FILTERED selection %s under %s with scan roots = %s FAILED %s' % (
                     sel, caps_str(t[3]), shape, 'requirement validation' if fi.get('scan') == 'prefail' else 'for another reason')
+        if op == 'names' and 'sres' in fm and fi.get('res') != fm['sres']:
+            got, want = fi.get('res', ''), fm['sres']
+            def ents(x):
+                return [unhex(e.split('/')[0]) for e in x[3:].split(',')] if x.startswith('ok:') and x != 'ok:-' else x
+            return 'resolving the %s names %s: got %s, the set union of the single resolutions (no plugin twice) is %s' % (t[1], unhexl(t[3]), ents(got), ents(want))
+        if op == 'enab':
+            v = enable_verdict(t, fi, fm)
+            if v:
+                return v
         if op == 'seq' and 'sr' in fm:
             if fi.get('r') != fm['sr']:
                 return 'FilterByCapabilities(%s) on the SAME list for the capability tuples %s in a row: results %s, the satisfied plugins are %s (a filter must be a pure function of its arguments)' % (
@@ -161,7 +203,26 @@ def run(ctx):
         return case.split(' ')[0] + ':' + (fi.get('res', fi.get('ok', fi.get('_', ''))).split(':')[0] or '-')[:10]
 
     lib.standard_stream(ctx, gen='c19gen', driver='drv_c19', gen_args=['-seed', str(ctx.seed), '-n', str(n), '-tier', ctx.tier],
-                        compare_keys=['errs', 'ok', 'names', 'kept', 'res', 'fs', 'st', 'n', 'dup', 'r', 'after', 'input', 'scan'], nontrivial=nontrivial, oracle=oracle, classify=classify,
+                        compare_keys=['errs', 'ok', 'names', 'kept', 'res', 'fs', 'st', 'n', 'dup', 'r', 'after', 'input', 'scan', 'en', 'calls', 'dup', 'stat'], nontrivial=nontrivial, oracle=oracle, classify=classify,
                         sample_every=997)
     if not proofs_ok:
         lib.proof_failed(ctx, 'Scalibr.Properties.C19' + (': ' + ', '.join(failed) if failed else ''))
+
+
+def run_enable_once(ctx):
+    """C01 at Scan level — "a required file is handed to an enabled extractor exactly once and the inventory is exactly the union": the
+    auto-enabling of detectors' required extractors must not enable a name twice. Real scalibr.New().Scan with 1..4 inert detectors whose
+    RequiredExtractors() lists overlap / repeat / name explicitly enabled extractors, over an in-memory tree with one file per extractor:
+    enabled lists after EnableRequiredExtractors, Extract calls per extractor (stats.Collector), package multiplicities and status
+    entries are judged against the specification printed by drv_c19 (first-occurrence union; one call per required file).
+    Theorems: ENABLE_THEOREMS in ENABLE_MODULE (Properties/C19Enable.lean) — the caller audits them."""
+    ok, _ = ctx.lean_build([ENABLE_MODULE, 'drv_c19'])
+
+    def oracle(case, fi, fm):
+        t = case.split(' ')
+        return enable_verdict(t, fi, fm) if t[0] == 'enab' else None
+    st = lib.standard_stream(ctx, gen='c19gen', driver='drv_c19',
+                             gen_args=['-seed', str(ctx.seed), '-n', str({'quick': 1500, 'thorough': 15000}[ctx.tier]), '-tier', 'quick', '-only', 'enab'],
+                             compare_keys=['res', 'en', 'calls', 'dup', 'stat', 'scan'], nontrivial=lambda c, fi, fm: fi.get('en', '-|-') != '-|-',
+                             oracle=oracle, classify=lambda c, fi, fm: 'enab res=%s' % fi.get('res', fi.get('_', '?')).split(':')[0], sample_every=299)
+    return ok and st
